@@ -32,7 +32,7 @@ pub const EULER_ALL: [EulerRot; 24] = [
     EulerRot::XYZEx, EulerRot::XZYEx, EulerRot::ZYZEx, EulerRot::ZXZEx, EulerRot::YXYEx, EulerRot::YZYEx, EulerRot::XYXEx, EulerRot::XZXEx,
 ];
 
-pub const N_OPS: usize = 53;
+pub const N_OPS: usize = 55;
 pub const STEP_WORDS: usize = 12;
 pub const MAX_STEPS: usize = 12;
 
@@ -102,7 +102,7 @@ macro_rules! family {
                     }
                 }
                 // producers: push to the pool, observe, and check the pool invariant
-                fn p_uv3(&mut self, what: &str, v: $V3) {
+                pub fn p_uv3(&mut self, what: &str, v: $V3) {
                     self.o3(v);
                     if !v.is_normalized() && self.invalid_pool.is_none() {
                         self.invalid_pool = Some(format!("{what} produced {:?} which does not pass is_normalized (|v|^2 = {:?})", v, v.length_squared()));
@@ -118,7 +118,7 @@ macro_rules! family {
                     self.uv2.push(v);
                     self.produced += 1;
                 }
-                fn p_uq(&mut self, what: &str, q: $Q) {
+                pub fn p_uq(&mut self, what: &str, q: $Q) {
                     self.oq(q);
                     if !q.is_normalized() && self.invalid_pool.is_none() {
                         self.invalid_pool = Some(format!("{what} produced {:?} which does not pass is_normalized (|q|^2 = {:?})", q, q.length_squared()));
@@ -126,7 +126,7 @@ macro_rules! family {
                     self.uq.push(q);
                     self.produced += 1;
                 }
-                fn p_rm3(&mut self, what: &str, m: $M3) {
+                pub fn p_rm3(&mut self, what: &str, m: $M3) {
                     self.om3(m);
                     if !(m.x_axis.is_normalized() && m.y_axis.is_normalized() && m.z_axis.is_normalized()) && self.invalid_pool.is_none() {
                         self.invalid_pool = Some(format!("{what} produced a rotation matrix whose axes are not normalized: {:?}", m));
@@ -143,7 +143,7 @@ macro_rules! family {
                     self.rig4.push(m);
                     self.p_m4(what, m);
                 }
-                fn p_rig_a3(&mut self, what: &str, a: $A3) {
+                pub fn p_rig_a3(&mut self, what: &str, a: $A3) {
                     self.oa3(a);
                     let m = $M3::from(a.matrix3);
                     if !(m.x_axis.is_normalized() && m.y_axis.is_normalized() && m.z_axis.is_normalized()) && self.invalid_pool.is_none() {
@@ -356,6 +356,40 @@ macro_rules! family {
                         if fed { s.consumer_steps_on_produced += 1; }
                         "inverse of mirrored / scaled matrices"
                     }
+                    53 => {
+                        // steering between related operands: the target is the start itself, its opposite, or a multiple of either
+                        // (the degenerate branches of rotate_towards pick their own rotation axis and hand it to from_axis_angle)
+                        let (a, f1) = uv3(c, s);
+                        let k = (2.0f64).powf(c.r(-3.0, 3.0)) as F;
+                        let b = match c.idx(6) { 0 => a, 1 => -a, 2 => a * k, 3 => -a * k, 4 => (a * k).normalize(), _ => uv3(c, s).0 };
+                        let ang = if c.idx(4) == 0 { 0.0 } else { c.r(-4.0, 4.0) as F };
+                        s.p_uv3("Vec3::rotate_towards(unit, related target)", a.rotate_towards(b, ang));
+                        s.o3((a * k).rotate_towards(b, ang));
+                        s.o3(a.move_towards(b, c.r(0.0, 3.0) as F));
+                        if let Some(a2) = pick(c, &s.uv2) {
+                            let b2 = match c.idx(5) { 0 => a2, 1 => -a2, 2 => a2 * k, 3 => -a2 * k, _ => pick(c, &s.uv2).unwrap_or(a2) };
+                            s.p_uv2("Vec2::rotate_towards(unit, related target)", a2.rotate_towards(b2, ang));
+                        }
+                        if $f32only { f32only_steer(c, s); }
+                        if f1 { s.consumer_steps_on_produced += 1; }
+                        "vector steering with related operands"
+                    }
+                    54 => {
+                        // the remaining rotation constructors of the 3x3 and affine types
+                        let (ax, fed) = uv3(c, s);
+                        let an = angle(c);
+                        s.p_rig_a3("Affine3::from_axis_angle", $A3::from_axis_angle(ax, an));
+                        s.p_rig_a3("Affine3::from_rotation_x", $A3::from_rotation_x(an));
+                        s.p_rig_a3("Affine3::from_rotation_y", $A3::from_rotation_y(angle(c)));
+                        s.p_rig_a3("Affine3::from_rotation_z", $A3::from_rotation_z(angle(c)));
+                        s.p_rm3("Mat3::from_rotation_x", $M3::from_rotation_x(angle(c)));
+                        s.p_rm3("Mat3::from_rotation_y", $M3::from_rotation_y(angle(c)));
+                        s.p_rm3("Mat3::from_rotation_z", $M3::from_rotation_z(angle(c)));
+                        if let Some(m) = pick(c, &s.rm3) { s.p_rig_a3("Affine3::from_mat3(rotation)", $A3::from_mat3(m)); s.p_rig4("Mat4::from_mat3(rotation)", $M4::from_mat3(m)); }
+                        if $f32only { f32only_rot_ctors(c, s); }
+                        if fed { s.consumer_steps_on_produced += 1; }
+                        "rotation constructors (3x3 / affine)"
+                    }
                     _ => { let (q, fed) = uq(c, s); if let Some(a) = pick(c, &s.a3) { let _ = a; } let m = $M3::from_quat(q); s.oq($Q::from_mat3(&m)); let m4_ = $M4::from_quat(q); s.oq($Q::from_mat4(&m4_)); if fed { s.consumer_steps_on_produced += 1; } "quat<->mat round trip" }
                 }
             }
@@ -518,6 +552,46 @@ mod f32only_impl {
             }
         }
         s.consumer_steps_on_produced += 1;
+    }
+}
+fn f32only_steer<S: 'static>(c: &mut Cur, s: &mut S) {
+    use std::any::Any;
+    if let Some(st) = (s as &mut dyn Any).downcast_mut::<f32fam::St>() {
+        let a3 = if st.uv3.is_empty() { Vec3::new(0.6, 0.0, 0.8) } else { st.uv3[c.idx(st.uv3.len())] };
+        // Vec3A with junk in the padding lane
+        let a = Vec3A::from_vec4(a3.extend(f32::from_bits(0x7fc0_0000 | (c.next() as u32 & 0x3f_ffff))));
+        let k = (2.0f64).powf(c.r(-3.0, 3.0)) as f32;
+        let b = match c.idx(5) { 0 => a, 1 => -a, 2 => a * k, 3 => -a * k, _ => Vec3A::from(st.uv3[c.idx(st.uv3.len().max(1)) % st.uv3.len().max(1)]) };
+        let ang = if c.idx(4) == 0 { 0.0 } else { c.r(-4.0, 4.0) as f32 };
+        let r = a.rotate_towards(b, ang);
+        st.p_uv3("Vec3A::rotate_towards(unit, related target)", Vec3::from(r));
+    }
+}
+fn f32only_rot_ctors<S: 'static>(c: &mut Cur, s: &mut S) {
+    use std::any::Any;
+    if let Some(st) = (s as &mut dyn Any).downcast_mut::<f32fam::St>() {
+        let ax = if st.uv3.is_empty() { Vec3::new(0.0, 0.6, 0.8) } else { st.uv3[c.idx(st.uv3.len())] };
+        let an = c.r(-7.0, 7.0) as f32;
+        let prods: [(&str, Mat3A); 6] = [
+            ("Mat3A::from_axis_angle", Mat3A::from_axis_angle(ax, an)),
+            ("Mat3A::from_euler", Mat3A::from_euler(EULER_ALL[c.idx(24)], an, c.r(-7.0, 7.0) as f32, c.r(-7.0, 7.0) as f32)),
+            ("Mat3A::from_rotation_x", Mat3A::from_rotation_x(an)),
+            ("Mat3A::from_rotation_y", Mat3A::from_rotation_y(an)),
+            ("Mat3A::from_rotation_z", Mat3A::from_rotation_z(an)),
+            ("Mat3A::from_quat", Mat3A::from_quat(if st.uq.is_empty() { Quat::IDENTITY } else { st.uq[c.idx(st.uq.len())] })),
+        ];
+        for (what, m) in prods {
+            st.p_rm3(what, Mat3::from(m));
+            // its own consumers
+            let q = Quat::from_mat3a(&m);
+            st.p_uq("Quat::from_mat3a(rotation constructor output)", q);
+            let e = m.to_euler(EULER_ALL[c.idx(24)]);
+            st.obs.push(e.0.to_bits() as u64);
+            st.obs.push(e.1.to_bits() as u64);
+            st.obs.push(e.2.to_bits() as u64);
+            let a = Affine3A::from_mat3(Mat3::from(m));
+            st.p_rig_a3("Affine3A::from_mat3(Mat3A rotation)", a);
+        }
     }
 }
 /// Vec3A has its own implementation in every backend: same boundary clamps and unit-vector consumers
